@@ -227,7 +227,7 @@ Proof.
     destruct (flat_map _ l) as [|x0 b0] eqn:Eb; [discriminate|]. injection H as <-. cbn [a_data] in Hl.
     finish_wf; try discriminate. all: rewrite Hlen; apply Nat.mod_mul; lia.
   - (* MpReach *)
-    destruct fam as [[afi safi]|]; [|discriminate].
+    destruct fam as [[afi safi]|]; [|discriminate]. destruct (_ || _); [discriminate|].
     destruct (_ && _).
     + injection H as <-. cbn [a_data] in Hl. finish_wf. unfold be16. repeat constructor; lia.
     + destruct nhs as [|nh r]; [discriminate|].
